@@ -136,8 +136,9 @@ Eval(e, env) ==
       [] e[1] = "isnone" -> LET x == Eval(e[2], env) IN IF IsErr(x) THEN Err ELSE Bool(x = None)
       [] e[1] = "not" -> LET x == Eval(e[2], env) IN IF IsErr(x) THEN Err ELSE Bool(~Truthy(x))
       [] e[1] = "and" -> LET x == Eval(e[2], env) IN
-                         IF IsErr(x) THEN Err ELSE IF ~Truthy(x) THEN Bool(FALSE)
-                         ELSE LET y == Eval(e[3], env) IN IF IsErr(y) THEN Err ELSE Bool(Truthy(y))
+                         IF IsErr(x) THEN Err ELSE IF ~Truthy(x) THEN x ELSE Eval(e[3], env)     \* the operand, not a boolean (both hosts)
+      [] e[1] = "or"  -> LET x == Eval(e[2], env) IN                                          \* x or y: the value of x if truthy, else the value of y
+                         IF IsErr(x) THEN Err ELSE IF Truthy(x) THEN x ELSE Eval(e[3], env)
       [] e[1] = "nrodd" -> Bool(env.nr % 2 = 1)
       [] e[1] = "true" -> Bool(TRUE)
       [] e[1] = "bmin" -> LET x == Eval(e[2], env) y == Eval(e[3], env) IN                       \* Python builtin min(x, y)
@@ -148,6 +149,8 @@ Eval(e, env) ==
                           IF IsErr(x) \/ IsErr(y) THEN Err ELSE IF Comparable(x, y) THEN (IF VLess(x, y) THEN y ELSE x) ELSE Err
       [] e[1] = "bsum" -> LET x == Eval(e[2], env) y == Eval(e[3], env) IN                       \* sum([x, y])
                           IF IsErr(x) \/ IsErr(y) THEN Err ELSE IF IsNum(x) /\ IsNum(y) THEN NAdd(x, y) ELSE Err
+      [] e[1] = "idx0" -> LET x == Eval(e[2], env) y == Eval(e[3], env) IN                      \* [x, y][0]: nested brackets and a comma inside one select item
+                          IF IsErr(x) \/ IsErr(y) THEN Err ELSE x
       [] e[1] = "udf" -> LET x == Eval(e[2], env) IN                                          \* udf(x) = x + "u", defined by the user's init code
                          IF IsErr(x) THEN Err ELSE IF x[1] = "s" THEN Str(x[2] \o <<117>>) ELSE Err
       [] e[1] = "poison" -> LET x == Eval(e[2], env) IN                                        \* raises iff the value is the poison string e[3]
